@@ -187,7 +187,11 @@ func CheckMain(args []string) int {
 		}
 	}
 	luaCh := make(chan *luaResult, 1)
-	go func() { luaCh <- runLuaChecks(prop, t, luaHs, outDir, *jobs) }()
+	luaJobs := *jobs
+	if len(jobsL) > 0 && len(luaHs) > 0 { // share the cores with the engine workers
+		luaJobs = (*jobs + 1) / 2
+	}
+	go func() { luaCh <- runLuaChecks(prop, t, luaHs, outDir, luaJobs) }()
 	sem := make(chan struct{}, *jobs)
 	var wg sync.WaitGroup
 	for _, j := range jobsL {
